@@ -322,3 +322,53 @@ func C12TraceThenSubscribe() {
 	v.probe("after-trace-subscription")
 	sym.Reach("trace-done")
 }
+
+// C12GenericActions: every sequence of three well-formed requests over the housekeeping actions every
+// object answers (statistics on/off/read/clear, traces on/off/read), with symbolic boolean arguments:
+// whatever the order, the service keeps answering everybody.
+func C12GenericActions() {
+	v := newZZVictim(0)
+	actions := []uint32{80, 81, 82, 83, 84, 85}
+	for i := 0; i < 3; i++ {
+		a := actions[sym.Choose("action", len(actions))]
+		var payload []byte
+		if a == 81 || a == 85 {
+			payload = []byte{sym.U8("flag") & 1}
+		}
+		v.hostile.inject(zzFrame(net.Call, v.sid, 1, a, uint32(60+i), payload))
+		sym.Quiesce()
+	}
+	v.probe("after-housekeeping-sequence")
+	sym.Reach("generic-actions-done")
+}
+
+// C12ConcurrentValues: two objects of one service (two mailboxes, so two goroutines) each receive, from one
+// connection, a property request whose argument is a dynamic value of a structure signature the process has
+// not seen before (the second request may reuse the first one's signature). Whatever the server keeps
+// between decodes is used from both goroutines at once: no crash, and the service keeps answering.
+func C12ConcurrentValues() {
+	v := newZZVictim(0)
+	sub := newZZObj()
+	s := v.srv.(*server)
+	s.Router.RLock()
+	svc := s.Router.services[v.sid]
+	s.Router.RUnlock()
+	id, err := svc.Add(sub.front)
+	sym.Assert(err == nil, "sub-object-added")
+	sigs := []string{"(i)<Fresh1,a>", "(i)<Fresh2,a>", "[(i)<Fresh3,a>]"}
+	val := func(sig string) []byte {
+		body := zzLE32(sym.U32("member"))
+		if sig[0] == '[' {
+			body = append(zzLE32(1), body...)
+		}
+		return append(append(zzLE32(uint32(len(sig))), sig...), body...)
+	}
+	first := sigs[sym.Choose("first-signature", 2)]
+	second := sigs[sym.Choose("second-signature", 3)]
+	// pipelined: both are in flight before either is answered
+	v.hostile.inject(zzFrame(net.Call, v.sid, 1, 5, 100, val(first)))
+	v.hostile.inject(zzFrame(net.Call, v.sid, id, 5, 101, val(second)))
+	sym.Quiesce()
+	v.probe("after-concurrent-values")
+	sym.Reach("concurrent-values-done")
+}
